@@ -138,6 +138,30 @@ def main():
                             resid = float(np.linalg.norm(np.asarray(F_(x), dtype=np.longdouble)))
                             if not (resid <= 1e3 * tol * (n + 1)):
                                 fail("success-on-a-system-without-a-root[%s]" % solver, residual=resid, **info)
+    # loose tolerances (1e-3, 1e-4: what the implicit integrators pass, not the near-machine-precision default) on systems without a
+    # real root: the step-size exit of the Newton trust-region solver must not be reachable by ever shorter accepted steps
+    def f_circ(x):
+        return np.array([x[0] ** 2 + x[1] ** 2 + 1, x[0] - x[1]], dtype=x.dtype)
+
+    def j_circ(x):
+        return np.array([[2 * x[0], 2 * x[1]], [1, -1]], dtype=x.dtype)
+    loose = [("x^2+1", lambda x: x ** 2 + 1, lambda x: np.diag(2 * np.ravel(x)), [3.0, -2.0]), ("circle-without-root", f_circ, j_circ, [2.0, 1.0]),
+             ("cubic-from-its-newton-cycle", lambda x: x ** 3 - 2 * x + 2, lambda x: np.diag(3 * np.ravel(x) ** 2 - 2), [0.0, 1.0])]
+    for dtype in (np.float64, np.longdouble):
+        for tol in (1e-3, 1e-4):
+            for nm, F_, J_, start in loose:
+                for with_jac in (True, False):
+                    for solver in ("nonlinear_roots", "newtontrustregion"):
+                        x0 = np.array(start, dtype=dtype)
+                        info = dict(system=nm, n=2, dtype=np.dtype(dtype).name, jac=with_jac, solver=solver, tol_requested=tol)
+                        cases[0] += 1
+                        try:
+                            x, res = getattr(O, solver)(F_, x0.copy(), jac=J_ if with_jac else None, tol=tol)
+                        except Exception:
+                            continue
+                        resid = float(np.linalg.norm(np.asarray(F_(np.asarray(x)), dtype=np.longdouble)))
+                        if bool(res[0]) and not (resid <= 10 * tol * (2 + float(np.linalg.norm(np.asarray(x, dtype=np.longdouble))))):
+                            fail("success-at-a-loose-tolerance-without-a-root[%s]" % solver, residual=resid, **info)
     json.dump(dict(bound="8 smooth systems x n in %s x shapes x float64/longdouble x 3 starts x with/without Jacobian x 3 solvers" % (list(dims),), cases=cases[0], failures=failures), sys.stdout)
 
 
